@@ -885,13 +885,16 @@ def _server_ordering(ctx: Ctx, model: ExcModel) -> None:
                 ok = not (rr & fcfg2.attempt(pc))
                 how = f"closure `{ecl.id}` forwarding to the cell set to `{outn}` before process()"
         elif isinstance(ecl, ast.Name) and any(last_attr(c) == "flush_contents" and isinstance(c.func, ast.Attribute) and isinstance(c.func.value, ast.Name) and c.func.value.id == ecl.id for c in calls(f)):
-            # the call-level sink, already switched to direct writing on this response stream: logs are written as emitted,
-            # i.e. before the step's data batch, which is flushed after process() returns
-            fcfg3 = cfg_of(f.node)
-            fls = [c for c in calls(f) if last_attr(c) == "flush_contents" and isinstance(c.func, ast.Attribute) and isinstance(c.func.value, ast.Name) and c.func.value.id == ecl.id]
-            rr3 = fcfg3.reach({fcfg3.entry}, set().union(*[fcfg3.done(c) for c in fls]))
-            ok = not (rr3 & fcfg3.attempt(pc))
-            how = f"call-level sink `{ecl.id}` in direct-write mode on the response stream"
+            # the call-level sink: after flush_contents it writes each message as it is emitted, while out.client_log()
+            # appends to the step's collector, which is written only after process() returns.  A step that uses both
+            # emission APIs gets its ctx logs delivered ahead of earlier collector logs (before the flush the sink
+            # buffers and nothing flushes it again: the message is lost) -- emission order is not preserved.
+            ok = False
+            how = f"call-level sink `{ecl.id}`"
+            ctx.fail("RF-DOM", f"step-logs-go-to-step-collector:{label}", f, cc,
+                     f"ctx.client_log() during process() is bound to the call-level sink `{ecl.id}`, not to the step's collector `{outn}`: messages emitted through the context are written "
+                     "immediately (or buffered and never flushed) while out.client_log() messages wait for the step's flush, so a step that emits through both is delivered out of emission order")
+            continue
         else:
             raise AnalysisError(f"C08: unsupported emit_client_log binding `{txt(ecl) if ecl is not None else None}` in {f.fq}")
         ctx.check(ok, "RF-DOM", f"step-logs-go-to-step-collector:{label}", f, cc, ok=f"logs emitted during process() are appended to that step's collector ({how}), ahead of the data batch emitted after them",
